@@ -279,10 +279,12 @@ def allToAll (b1 b2 : Fin M.nbody) (merged : Bool) (chunk : List (Pair M.ngeom))
     ((geomsOf M b2).filter (fun g2 => filterDyn M g1 g2 merged chunk)).map (fun g2 => push M g1 g2 none)
 
 /-- exclude scan: advance while `exclude_signature[exadr] < signature`, then test equality -/
-def excluded (s : Nat) : Bool :=
-  match M.excludes.dropWhile (fun x => x < s) with
+def exclScan (s : Nat) (l : List Nat) : Bool :=
+  match l.dropWhile (fun x => x < s) with
   | x :: _ => x = s
   | [] => false
+
+def excluded (s : Nat) : Bool := exclScan s M.excludes
 
 /-- dispatch for one bodyflex pair (after bitmask and exclude tests) -/
 def bodyPairItems (b1 b2 : Fin M.nbody) (merged : Bool) (chunk : List (Pair M.ngeom)) :
